@@ -69,16 +69,20 @@ def permute_case(ty, shape, p, cfg, kind='permute'):
         ens = [(b, k, E.inp(a, k) + E.inp(a, k)) for k in range(n)]
     return Case('C14/%s/%s/%s/p%s/%s' % (kind, ty.name, 'x'.join(map(str, shape)), ''.join(map(str, p)), cfg.tag()), 'C14', body, [a, b], ens, 'SYM', cfg)
 
-def permutation_case(ty, shape, p, cfg):
-    """legacy permutation<>: by p or by p^-1, consistently for extents and elements."""
+def permutation_case(ty, shape, p, cfg, expr=False):
+    """legacy permutation<>: by p or by p^-1, consistently for extents and elements.
+    expr=True: the argument is the unevaluated expression A+A (int) -- the element read must then be a[i]+a[i]."""
     n = prod(shape); r = len(shape)
     a = Buf('a', ty, n, 'in'); b = Buf('b', ty, n, 'out'); d = Buf('d', U64, r, 'out')
-    body = ('    %s\n    auto B = permutation<%s>(A);\n    static_assert(sizeof(B) >= sizeof(%s) * %d, "result size");\n    %s\n'
+    body = ('    %s\n    auto B = permutation<%s>(ARG_);\n    static_assert(sizeof(B) >= sizeof(%s) * %d, "result size");\n    %s\n'
             '    for (int i_ = 0; i_ < %d; ++i_) d[i_] = B.dimension(i_);'
             % (town(ty, shape, 'a'), index_list(p), ty.cpp, n, copy_out('B', 'b', n), r))
+    body = body.replace('ARG_', 'A + A' if expr else 'A')
     q = inverse(p)
     s1, e1 = permute_ensures(a, b, shape, p)
     s2, e2 = permute_ensures(a, b, shape, q)
+    if expr:
+        e1 = [(bb, k, x + x) for (bb, k, x) in e1]; e2 = [(bb, k, x + x) for (bb, k, x) in e2]
     def dims_are(s):
         c = None
         for k in range(r):
@@ -90,8 +94,42 @@ def permutation_case(ty, shape, p, cfg):
         assert k1 == k2
         c = (dims_are(s1).band(E.post(b, k1).same(x1))).bor(dims_are(s2).band(E.post(b, k1).same(x2)))
         ens.append(('bool', 'b[%d] by p or by p^-1 consistently with the extents' % k1, c))
-    fam = 'permutation' if q == tuple(p) else 'permutation-noninvolution'
+    fam = ('permutation-expr' if expr else 'permutation') + ('' if q == tuple(p) else '-noninvolution')
     return Case('C14/%s/%s/%s/p%s/%s' % (fam, ty.name, 'x'.join(map(str, shape)), ''.join(map(str, p)), cfg.tag()), 'C14', body, [a, b, d], ens, 'SYM', cfg)
+
+def ctrans_case(M, N, cfg, kind, base=DBL):
+    """conjugate transpose on std::complex<base>: buffers are interleaved (re,im) pairs of the base type."""
+    n = M * N; C = 'std::complex<%s>' % base.cpp
+    a = Buf('a', base, 2 * n, 'in')
+    ld = lambda nm, sh, src: 'Tensor<%s,%s> %s(reinterpret_cast<const %s*>(%s));' % (C, dims(sh), nm, C, src)
+    out = lambda var, buf: 'for (int i_ = 0; i_ < %d; ++i_) %s[i_] = reinterpret_cast<const %s*>(%s.data())[i_];' % (2 * n, buf, base.cpp, var)
+    re = lambda buf, i, j, cols: E.inp(buf, 2 * (i * cols + j)); im = lambda buf, i, j, cols: E.inp(buf, 2 * (i * cols + j) + 1)
+    ens = []
+    if kind in ('ctranspose', 'ctrans-assign'):
+        b = Buf('b', base, 2 * n, 'out'); bufs = [a, b]; mode = 'SYM'
+        call = 'ctranspose(A)' if kind == 'ctranspose' else 'ctrans(A)'
+        body = '    %s\n    Tensor<%s,%d,%d> B = %s;\n    %s' % (ld('A', (M, N), 'a'), C, N, M, call, out('B', 'b'))
+        for i in range(M):
+            for j in range(N):
+                ens.append((b, 2 * (j * M + i), re(a, i, j, N))); ens.append((b, 2 * (j * M + i) + 1, -im(a, i, j, N)))
+    else:
+        # X += ctrans(A)  /  B = X + ctrans(A): element (j,i) gets x + conj(a(i,j)); either fadd(x,-a) or fsub(x,a) is the same IEEE value
+        x = Buf('x', base, 2 * n, 'inout' if kind == 'ctrans-addassign' else 'in'); mode = 'UF'
+        if kind == 'ctrans-addassign':
+            body = '    %s %s\n    X += ctrans(A);\n    %s' % (ld('A', (M, N), 'a'), ld('X', (N, M), 'x'), out('X', 'x')); o = x; bufs = [a, x]
+        else:
+            o = Buf('b', base, 2 * n, 'out'); bufs = [a, x, o]
+            body = '    %s %s\n    Tensor<%s,%d,%d> B = X + ctrans(A);\n    %s' % (ld('A', (M, N), 'a'), ld('X', (N, M), 'x'), C, N, M, out('B', 'b'))
+        for i in range(M):
+            for j in range(N):
+                k = 2 * (j * M + i)
+                ens.append((o, k, E.inp(x, k) + re(a, i, j, N)))
+                xi = E.inp(x, k + 1); ai = im(a, i, j, N)
+                ens.append(('bool', '%s[%d] == x.im + (-a.im)' % (o.name, k + 1), E.post(o, k + 1).same(xi + (-ai)).bor(E.post(o, k + 1).same(xi - ai))))
+    ens.sort(key=lambda t: t[1] if t[0] != 'bool' else 10 ** 6)
+    c = Case('C14/%s/c%s/%dx%d/%s' % (kind, base.name, M, N, cfg.tag()), 'C14', body, bufs, ens, mode, cfg)
+    if mode == 'UF': c.solver = 'cadical'    # MiniSat was seen to hang on small UF instances
+    return c
 
 SHAPES = {2: [(3, 5), (2, 9)], 3: [(2, 3, 5), (3, 2, 9)], 4: [(2, 3, 4, 5), (3, 2, 2, 9)], 5: [(2, 3, 2, 3, 5)], 6: [(2, 2, 3, 2, 2, 3)]}
 
@@ -124,6 +162,13 @@ def cases(tier, seed):
                 if ty is not DBL:
                     for (M, N) in sample(rng, pairs, 2 if not thorough else 10):
                         out.append(transpose_case(ty, M, N, cfg, 'trans_expr'))
+        # conjugate transpose on complex tensors (eager, lazy assignment: SYM; lazy in + / +=: UF on pipeline P0)
+        for base in (DBL, FLT):
+            for (M, N) in ([(2, 3), (3, 3)] if not thorough else [(2, 3), (3, 3), (4, 4), (1, 5), (5, 2)]):
+                out.append(ctrans_case(M, N, Cfg(isa), 'ctranspose', base))
+                out.append(ctrans_case(M, N, Cfg(isa), 'ctrans-assign', base))
+                out.append(ctrans_case(M, N, Cfg(isa, pipe='P0'), 'ctrans-addassign', base))
+                out.append(ctrans_case(M, N, Cfg(isa, pipe='P0'), 'ctrans-add', base))
         # permute: both language standards see different index maps
         for std in ('c++14', 'c++17'):
             cfg = Cfg(isa, std)
@@ -141,6 +186,10 @@ def cases(tier, seed):
                         out.append(permute_case(INT, shape, p, cfg, 'roundtrip-expr'))
                     for p in sample(rng, perms, 3 if not thorough else 8):
                         out.append(permutation_case(rng.choice([FLT, INT]), shape, p, cfg))
+                    for p in sample(rng, [q_ for q_ in perms if inverse(q_) == tuple(q_) and q_ != tuple(range(r))], 2 if not thorough else 6):
+                        out.append(permutation_case(INT, shape, p, cfg, expr=True))
+                    for p in sample(rng, [q_ for q_ in perms if inverse(q_) != tuple(q_)], 1 if not thorough else 3):
+                        out.append(permutation_case(INT, shape, p, cfg, expr=True))
             if thorough:
                 perms = list(itertools.permutations(range(6)))
                 for p in sample(rng, perms, 6):
